@@ -495,9 +495,23 @@ impl<'a> Interp<'a> {
                     }
                     self.folds.remove(&k);
                 }
-                // ls receivers are dropped, as the server's forwarding tasks do when the connection ends
+                // the session's subscriptions must be gone: ending them once more must fail
+                let subs: Vec<u64> = self.subs_of.get(&id).cloned().unwrap_or_default();
+                for tid in subs {
+                    if self.wb.unsubscribe(uuid(id), tid).await.is_ok() {
+                        return Err(self
+                            .fail("session_end.subscription_left", "the subscription of the ended session is gone", format!("subscription {tid} was still registered"))
+                            .sig(json!({"obs": "session_end.subscription_left"})));
+                    }
+                }
                 let keys: Vec<(Cid, u64)> = self.ls_rx.keys().filter(|k| k.0 == id).cloned().collect();
                 for k in keys {
+                    // keep the receiver alive while probing, so that a left-over subscription is found
+                    if self.wb.unsubscribe_ls(uuid(id), k.1).is_ok() {
+                        return Err(self
+                            .fail("session_end.ls_subscription_left", "the ls-subscription of the ended session is gone", format!("ls-subscription {} was still registered", k.1))
+                            .sig(json!({"obs": "session_end.ls_subscription_left"})));
+                    }
                     self.ls_rx.remove(&k);
                     self.ls_last.remove(&k);
                 }
